@@ -361,6 +361,16 @@ func corpus() []rescorr.Case {
 			`module b { namespace "urn:b"; prefix b; import a { prefix a; }
 			   container top { config false; container l1 { container l2 { uses a:g; leaf deep { type string; } container back { config true; leaf rw { type string; } } } } }
 			   rpc r { input { leaf i { type string; } } output { container oc { leaf o { type string; } } } } }`),
+		// outside the property (config inside an rpc): `config true` below an output answers
+		// read-write (Props/C12 readOnly_spec_without_exclusion_fails); the oracle skips it, the
+		// correspondence with the model (readOnly_exact) does not
+		mk(`a /a urn:a a
+			a /a/r urn:a a
+			a /a/r/output urn:a a
+			a /a/r/output/c urn:a a
+			a /a/r/output/c/o urn:a a
+			a /a/r/output/p urn:a a`,
+			`module a { namespace "urn:a"; prefix a; rpc r { output { container c { config true; leaf o { type string; } } leaf p { type string; } } } }`),
 		// augment from a submodule into another module, and into its own module
 		mk(`a /a urn:a a
 			a /a/c urn:a a
